@@ -47,6 +47,7 @@ fn script_of(cmd: &str, args: &[String]) -> String {
         "ls" => format!("h = glob_array \"{}/*\"\n", args[0]),
         "write_binary" => format!("h = string_to_bytes {}\no = write_binary_file {} ${{h}}\n", q[1], q[0]),
         "read_binary" => format!("h = read_binary_file {}\no = set ${{h}}\nif starts_with \"${{h}}\" handle:\no = bytes_to_string ${{h}}\nend\n", q[0]),
+        "cp_detour" | "mv_detour" => format!("o = {} \"d/../{}\" {}\n", &cmd[..2], args[0], q[0]),
         _ => format!("o = {} {}\n", cmd, q.join(" ")),
     }
 }
@@ -173,6 +174,7 @@ pub fn record(args: &[String]) {
                 12 => ("readfile", vec![p]),
                 13 => (*r.pick(&["is_path_exists", "is_file", "is_dir", "get_file_size", "read_binary", "basename", "dirname"]), vec![p]),
                 14 => ("ls", vec![p]),
+                15 if r.chance(1, 3) => (*r.pick(&["cp_detour", "mv_detour"]), vec!["a.txt".to_string()]),
                 15..=17 => ("cp", vec![r.pick(sources).to_string(), p]),
                 _ => ("mv", vec![r.pick(sources).to_string(), p]),
             };
